@@ -166,6 +166,7 @@ void World::observe(Outcome& o) {
 }
 
 std::string World::check_with_passes() const {
+  if (!with_misuse.empty()) return with_misuse;
   // per slot, the evaluations must decompose into passes 0,1,..,k with all but possibly the last true
   for (int s = 0; s < NSLOT; ++s) {
     int expect = 0;
